@@ -1627,6 +1627,8 @@ class Engine:
                                if c.lookup(finfo.name) is m and c.is_subclass_of(selfv.cls)]
                     if not classes:
                         continue
+                    if m.qualname not in self.reg.contracts:
+                        raise EngineLimit("dynamic dispatch to %s which has no contract of its own" % m.qualname)
                     cond = z3.Or(*[self.tag_fn(selfv.ref) == self.class_id(c) for c in classes])
                     if ctx.decide(cond):
                         narrowed = Obj(m.cls, False, selfv.ref, None, ctx)
